@@ -268,6 +268,30 @@ pub fn record(seed: u64, n: usize, cli: Option<&str>) -> Vec<J> {
     for e in c14.iter().chain(c11.iter()) {
         if let Some(src) = e["src"].as_str() { if !src.contains("==?") { programs.push(vec![format!("r = {}", src)]); } }
     }
+    // every built-in applied to values that are bound to names beforehand: no heap cell that existed before the call may
+    // change (a built-in that sorts, reverses or extends its argument in place shows here, on the unsorted ones)
+    {
+        let defs = ["u1 = [3, 1, 2]", "u2 = [\"b\", \"c\", \"a\"]", "u3 = {z: 1, a: [2, 1]}", "u4 = [[2, 1], [1, 2], [0]]", "u5 = \"cba\"", "u6 = x => 0 - x", "u7 = (a, b) => b - a",
+                    "u8 = [{k: 2, v: [9, 8]}, {k: 1, v: [7]}, {k: 2, v: []}]", "u9 = [3, 1, 2, 1, 3]"];
+        let mut prog: Vec<String> = defs.iter().map(|d| d.to_string()).collect();
+        for n in BuiltInFunction::all_names() {
+            if ["time_now", "print", "random"].contains(&n) { continue; }
+            for l in ["u1", "u2", "u4", "u8", "u9"] {
+                prog.push(format!("{n}({l})"));
+                prog.push(format!("{n}({l}, u6)"));
+                prog.push(format!("{n}({l}, u7)"));
+                prog.push(format!("{n}({l}, 1)"));
+                prog.push(format!("{n}({l}, x => x.k)"));
+                prog.push(format!("{n}({l}, u7, 0)"));
+            }
+            prog.push(format!("{n}(u3)"));
+            prog.push(format!("{n}(u5)"));
+            prog.push(format!("{n}(u1, u9)"));
+            prog.push(format!("{n}(u3, \"a\")"));
+        }
+        prog.extend(["u1 via u6", "u9 where (x => x > 1)", "u1 into sort", "[...u1, ...u9]", "{...u3, b: 1}", "u1 + u1", "u4[0]"].iter().map(|s| s.to_string()));
+        programs.push(prog);
+    }
     for (pi, prog) in programs.iter().enumerate() {
         // run 1 with heap digests per statement
         let s1 = Session::new();
